@@ -11,18 +11,18 @@ import units
 TEXT = {
     'C01': ('proof', 'Verus discharges, for all inputs and with no bound, the contracts of the real forward byte searchers: generic One/Two/Three::find_raw (every V: Vector), the SSE2/AVX2 wrappers and their short-haystack routing, the SWAR fallback, the three dispatcher targets and memchr/memchr2/memchr3 themselves, whose postcondition is the property statement', '5 C01'),
     'C02': ('proof', 'as C01 for rfind_raw / memrchr{,2,3}: postcondition = largest matching index, None iff none', '5 C02'),
-    'C03': ('other', 'proof of every search engine (one-byte = memchr; packed-pair find; Rabin-Karp incl. constructors; Two-Way incl. completeness via the critical-factorisation theorem) and of the union-reading glue searcher_kind_*; memmem::find / Finder::find / builders are proved against ONE assumed contract: calling through the fn pointer of the meta searcher runs the kind function matching the active union field (Searcher::new/find), which only bounded Kani harnesses exercise - hence hybrid', '5 C03'),
+    'C03': ('proof', 'one Verus unit contains the whole forward substring stack extracted from /repo: memmem::find, Finder::{new,find}, FinderBuilder, Searcher::{new,twoway,find} (fn pointers defunctionalised mechanically, rule X15), every searcher_kind_*, packed-pair find, Rabin-Karp incl. constructors, Two-Way incl. completeness (critical-factorisation theorem), memchr for one-byte needles; the postcondition of memmem::find / Finder::find is the property statement (is_leftmost)', '5 C03'),
     'C04': ('proof', 'memmem::rfind, FinderRev::{new,rfind}, SearcherRev::{new,rfind} (plain enum) proved against the real reverse engines (Rabin-Karp reverse incl. constructor, Two-Way reverse incl. completeness, memrchr), all discharged by Verus in the same run', '5 C04'),
     'C05': ('proof', 'every dereference, aligned load and pointer step in the extracted units carries a readable-range / in-bounds / alignment precondition that Verus discharges at each call site; safe entry points have no memory precondition beyond their type invariant; packed-pair finders also in the S (release, any-needle) variant', '5 C05'),
     'C06': ('proof', 'per-operation window contracts on the real iterator methods of every backend + inductive spec-level history lemmas covering every next/next_back order', '5 C06'),
     'C07': ('proof', 'count_raw loop invariant count == count_hits(start,cur) on the real generic code, wrappers, SWAR, dispatcher and Memchr::count / Iter::count on the current window', '5 C07'),
-    'C08': ('other', 'FindIter/FindRevIter next and size_hint proved to realise the greedy sequence for every PrefilterState; the reverse side rests on proved engines only, the forward side on the assumed fn-pointer pairing of C03', '5 C08'),
-    'C09': ('proof', 'corollary: every implementation (SWAR, SSE2, AVX2, each dispatcher target) is proved against one functional specification with a unique answer', '5 C09'),
-    'C10': ('other', 'the searcher contract quantifies over every PrefilterState/config/ranker; Two-Way with a prefilter is proved exact for every prefilter built for the needle (and sound for any); Pair::with_ranker proved for every ranker; the fn-pointer pairing is assumed (bounded Kani glue harness with a fully symbolic ranker in the thorough tier)', '5 C10'),
+    'C08': ('proof', 'FindIter/FindRevIter next and size_hint proved to realise the greedy non-overlapping sequence (spec fns greedy_fwd/greedy_rev, counting lemma for size_hint) for every PrefilterState, on top of the proved Searcher/SearcherRev contracts in the same unit', '5 C08'),
+    'C09': ('proof', 'SWAR (64- and 32-bit usize), SSE2, AVX2, NEON, wasm32 simd128 and every dispatcher/meta-searcher strategy proved against one functional specification with a unique answer; the aarch64/wasm32/portable wirings are verified from source text the host never compiles', '5 C09'),
+    'C10': ('proof', 'Searcher::new ensures built_for(needle) for every PrefilterConfig and every ranker (generic R; Pair::with_ranker proved for all rankers), Searcher::find ensures is_leftmost for every PrefilterState value; Two-Way with a prefilter is exact for every prefilter built for the needle', '5 C10'),
     'C11': ('proof', 'find_prefilter of the generic vector finder (SSE2/AVX2 wrappers), of the portable finder and Prefilter::find_simple are proved to return a candidate <= every occurrence and None only if there is none', '5 C11'),
     'C12': ('proof', 'each block proved exact on its documented domain: packed-pair find, Rabin-Karp search and constructors, Two-Way forward/reverse incl. completeness (critical-factorisation theorem), Shift-Or bit-parallel automaton; constructors reporting unsupported inputs by None', '5 C12'),
     'C14': ('proof', 'every debug_assert (X3), assert (X4, pinned both ways), index, slice range, subtraction, shift, unwrap and loop termination in the extracted units is an obligation discharged by Verus', '5 C14'),
-    'C16': ('other', 'result determined by (needle, haystack): fresh PrefilterState per find + searcher contract for every state; as_ref/into_owned/needle contracts proved against assumed searcher contracts', '5 C16'),
+    'C16': ('proof', 'Finder::find / FinderRev::rfind postconditions determine the result from (needle, haystack) for every call; needle(), as_ref, into_owned (finders and iterators) proved to preserve needle, searcher and iteration state', '5 C16'),
     'C18': ('proof', 'is_equal_raw/is_equal/is_prefix/is_suffix proved equal to slice comparison with every read inside the given ranges', '5 C18'),
     'C19': ('proof', 'Pair::with_ranker proved for every ranker (generic R), Pair::new, with_indices, accessors, finder constructors / pair / min_haystack_len proved', '5 C19'),
 }
